@@ -8,11 +8,11 @@ from gen import sentences as S
 from props import parse_common as pc
 
 LEVEL = 'proof'
-MODULES = ['Pysmi.Props.C17', 'Pysmi.Props.C17Tables', 'Pysmi.Pins.Lex']
-LAKE_TARGETS = ['Pysmi.Props.C17', 'Pysmi.Pins.Lex']
+MODULES = ['Pysmi.Props.C17', 'Pysmi.Props.C17Tables', 'Pysmi.Pins.Lex', 'Pysmi.Pins.SkelC17']
+LAKE_TARGETS = ['Pysmi.Props.C17', 'Pysmi.Pins.Lex', 'Pysmi.Pins.SkelC17']
 SINGLES = ['supportSmiV1Keywords', 'commaAtTheEndOfImport', 'commaAtTheEndOfSequence', 'mixOfCommasAndSpaces', 'uppercaseIdentifier',
            'lowcaseIdentifier', 'curlyBracesAroundEnterpriseInTrap', 'noCells']
-THEOREMS = (['Pysmi.Grammar.C17_simulation_sound', 'Pysmi.Grammar.simAll_map', 'Pysmi.Grammar.C17_option_order_irrelevant',
+THEOREMS = (['Pysmi.Pins.SkelC17.pin_parserFactory', 'Pysmi.Pins.SkelC17.pin_lexerFactory', 'Pysmi.Grammar.C17_simulation_sound', 'Pysmi.Grammar.simAll_map', 'Pysmi.Grammar.C17_option_order_irrelevant',
              'Pysmi.Generated.Grammar.C17_monotone_single', 'Pysmi.Generated.Grammar.C17_monotone_to_relaxed',
              'Pysmi.Generated.Grammar.C17_monotone_dialects', 'Pysmi.Generated.Grammar.C17_relaxed_is_larger',
              'Pysmi.Generated.Grammar.C17_options_disjoint', 'Pysmi.Generated.Grammar.C17_parser_order_irrelevant',
